@@ -22,7 +22,7 @@ def offenders(objects):
 
 def check(ctx):
     ctx.rule = ("every .c file of the working tree compiled with the shipping flags (-O2 -fPIC -fstack-protector-strong -D_FORTIFY_SOURCE=2); "
-                "readelf section headers + symbol table; distinct = object file; non-trivial = file with code or data; "
+                "readelf section headers + symbol table (writable / thread-local storage) and undefined symbols (imports of libc functions that POSIX lists as keeping process-wide hidden state); distinct = object file; non-trivial = file with code or data; "
                 "thorough additionally runs the mixed generate/parse workload in 8 and 16 threads under ThreadSanitizer and compares per-thread digests with the sequential run")
     meta, data = fw.run_gen(ctx)
     if meta is None:
@@ -36,6 +36,14 @@ def check(ctx):
                       "%s has %d bytes of writable static storage in %s (%s): shared between all threads" % (fn, size, sec, ", ".join(syms) or "anonymous"),
                       {"kind": "object", "file": fn, "section": sec, "symbols": syms, "size": size})
     ctx.oblige("spec-on-impl", "no object file of the -O2 build has writable or thread-local static storage (%d files)" % len(objs), not bad)
+    # the same question for state kept by the C library on the library's behalf (the list is the Spec's, read from the Lean source)
+    import re
+    shared = set(re.findall(r'n!"([^"]+)"', open(os.path.join(LEAN_DIR, "LWV", "Spec", "Posix.lean")).read().split("def sharedStateLibc", 1)[1]))
+    hits = [(f["file"], sym) for f in objs for sym in f.get("imports", []) if sym in shared]
+    for fn, sym in hits:
+        ctx.violation("shared-libc:%s:%s" % (fn, sym), "%s calls %s(), which works on hidden state shared by all threads of the process (POSIX 2.9.1: need not be thread-safe)" % (fn, sym),
+                      {"kind": "import", "file": fn, "symbol": sym})
+    ctx.oblige("spec-on-impl", "no object file imports a libc function with process-wide hidden state (%d files, %d distinct imports, %d listed functions)" % (len(objs), len({s_ for f in objs for s_ in f.get("imports", [])}), len(shared)), not hits)
     ctx.sample({"file": objs[6]["file"], "objects": objs[6]["objects"], "writable_sections": objs[6]["writable_sections"]})
     if ctx.tier == "thorough":
         run_threads(ctx)
@@ -69,6 +77,10 @@ def replay(rp):
         meta, data = genmod.generate()
         bad = [b for b in offenders(data["objects"]) if b[0] == rp["file"]]
         return not bad, "%s: writable static storage now: %s" % (rp["file"], bad)
+    if rp.get("kind") == "import":
+        meta, data = genmod.generate()
+        still = [f["file"] for f in data["objects"] if f["file"] == rp["file"] and rp["symbol"] in f.get("imports", [])]
+        return not still, "%s imports %s: %s" % (rp["file"], rp["symbol"], bool(still))
     if rp.get("kind") == "threads":
         exe, err = diffrun.build_harness("tsan")
         o, rc, e = diffrun.run_lines(exe, [rp["line"]], env={"TSAN_OPTIONS": "halt_on_error=0:exitcode=66"}, timeout=1800)
